@@ -215,7 +215,21 @@ Definition c_set_rl (c : cctl) (p : crl) : cctl :=
 
 Definition is_ret_nil (p : cpc) : bool := match p with CPRet true => true | _ => false end.
 
-Definition composite_step (c : cctl) (l : ccl) (cur : st) : option (option op * (bool -> cctl)) :=
+(* Two switches.
+   [composite_teardown_serialized] (/repo 82de565, in the repository): Run's stopAllRunnables takes
+   reloadMu, i.e. waits for a Reload in flight ([CStopAllOk]/[CStopAllFail] need the reload thread idle).
+   [composite_run_excludes_reload] (candidate repair hooks/candidate-fix-c08-b-*.patch, NOT in the
+   repository): Run keeps reloadMu from there until it has returned, so no Reload can begin while Run
+   is between its teardown and its return.  [composite_step] is the variant the theorems and the
+   correspondence runs are about. *)
+Definition composite_teardown_serialized : bool := true.
+Definition composite_run_excludes_reload : bool := false.
+Definition c_rl_idle (c : cctl) : bool := match c_rl c with CRIdle => true | _ => false end.
+Definition c_run_holds_reloadmu (c : cctl) : bool :=
+  match c_run c with CPDown2 | CPRet true => true | _ => false end.
+
+Definition composite_stepx (ts fb : bool) (c : cctl) (l : ccl) (cur : st)
+  : option (option op * (bool -> cctl)) :=
   match l with
   | CRunCall => match c_run c with CP0 => ret None (fun _ => c_set_run c CPCalled) | _ => None end
   | CTBooting =>       (* Run: Transition(Booting); failure returns the error without touching the state *)
@@ -255,8 +269,16 @@ Definition composite_step (c : cctl) (l : ccl) (cur : st) : option (option op * 
     | CPDown0 => ret (Some (OTransIf Running Stopping)) (fun _ => c_set_run c CPDown1)
     | _ => None
     end
-  | CStopAllOk => match c_run c with CPDown1 => ret None (fun _ => c_set_run c CPDown2) | _ => None end
-  | CStopAllFail => match c_run c with CPDown1 => ret None (fun _ => c_set_run c CPFail) | _ => None end
+  | CStopAllOk =>
+    match c_run c with
+    | CPDown1 => if negb ts || c_rl_idle c then ret None (fun _ => c_set_run c CPDown2) else None
+    | _ => None
+    end
+  | CStopAllFail =>
+    match c_run c with
+    | CPDown1 => if negb ts || c_rl_idle c then ret None (fun _ => c_set_run c CPFail) else None
+    | _ => None
+    end
   | CTStopped =>
     match c_run c with
     | CPDown2 => ret (Some (OTrans Stopped)) (fun ok => c_set_run c (if ok then CPRet true else CPFail))
@@ -279,7 +301,11 @@ Definition composite_step (c : cctl) (l : ccl) (cur : st) : option (option op * 
   | CChildFail => ret None (fun _ => mkC (c_run c) (c_rl c) (c_stop c) (c_cancel c) true (c_late c))
   | CReloadCall => ret None (fun _ => c)
   | CReloadRet => ret None (fun _ => c)
-  | CRlBegin => match c_rl c with CRIdle => ret None (fun _ => c_set_rl c CRStart) | _ => None end
+  | CRlBegin =>        (* reloadMu.Lock() *)
+    match c_rl c with
+    | CRIdle => if fb && c_run_holds_reloadmu c then None else ret None (fun _ => c_set_rl c CRStart)
+    | _ => None
+    end
   | CRlT =>
     match c_rl c with
     | CRStart => ret (Some (OTrans Reloading)) (fun ok => c_set_rl c (if ok then CRCb else CRFail))
@@ -301,6 +327,8 @@ Definition composite_step (c : cctl) (l : ccl) (cur : st) : option (option op * 
     end
   | CRlDone => match c_rl c with CREnd => ret None (fun _ => c_set_rl c CRIdle) | _ => None end
   end.
+
+Definition composite_step := composite_stepx composite_teardown_serialized composite_run_excludes_reload.
 
 Definition composite_tok (l : ccl) : tokact :=
   match l with
